@@ -131,9 +131,17 @@ BTree_check_inner(BTree *self, Bucket *nextbucket)
         activated_child = NULL;
         for (i = 0; i < self->len; ++i)
         {
+            int childlen;
+
             child = self->data[i].child;
             CHECK(SameType_Check(self, child),
                     "BTree children have different types");
+            UNLESS (PER_USE(child))
+                goto Done;
+            childlen = child->len;
+            PER_ALLOW_DEACTIVATION(child);
+            /* no empty interior nodes, either! */
+            CHECK(childlen >= 1, "BTree child length < 1");
             if (i == self->len - 1)
                 bucketafter = nextbucket;
             else
